@@ -205,10 +205,11 @@ def group_level(rep, tier, timeout):
     from symoas import kernels, pipe
     from symoas.sym import PI
 
-    cfgs = [("symL_2x2", [K.surface(2, 2, True)])]
+    cfgs = [("symL_2x2", [K.surface(2, 2, True)], False), ("symL_2x2 rotational", [K.surface(2, 2, True)], True)]
     if tier == "thorough":
-        cfgs += [("symL_2x2+full_2x3", [K.surface(2, 2, True), K.surface(2, 3, False, name="tail")])]
-    for cn, ss in cfgs:
+        cfgs += [("symL_2x2+full_2x3", [K.surface(2, 2, True), K.surface(2, 3, False, name="tail")], False),
+                 ("full_2x3 rotational", [K.surface(2, 3, False)], True)]
+    for cn, ss, rotational in cfgs:
         al, be, M = symarray("alpha", (1,)), symarray("beta", (1,)), symarray("Mach_number", (1,))
         v, rho = symarray("v", (1,)), symarray("rho", (1,))
         a_, b_ = al[0] * PI / 180, be[0] * PI / 180
@@ -236,18 +237,32 @@ def group_level(rep, tier, timeout):
         gam = symarray("circulations", (npan,))
         root = "aero_point_0.aero_states"
 
-        def run(compressible, ms, ns, a, b):
-            prob = groups.aeropoint_problem(ss, compressible=compressible)
-            GP = pipe.GroupPipe(prob, root=root, extra=kernels.EVAL_MTX_STUBS)
-            ext = {"alpha": a, "beta": b, "v": v, "rho": rho, "Mach_number": M}
+        om_, cg_ = symarray("omega", (3,)), symarray("cg", (3,))
+
+        def run(compressible, ms, ns, a, b, rotvel=None):
+            prob = groups.aeropoint_problem(ss, compressible=compressible, rotational=rotational)
+            # the transformed reference problem takes its rotational onset velocities from outside (the transformed ones)
+            GP = pipe.GroupPipe(prob, root=root, extra=kernels.EVAL_MTX_STUBS, skip=((".rotational_velocity",) if rotvel is not None else ()))
+            ext = {"alpha": a, "beta": b, "v": v, "rho": rho, "Mach_number": M, "omega": om_, "cg": cg_}
             for s in ss:
                 ext[s["name"] + "_def_mesh"] = ms[s["name"]]
                 ext["aero_point_0.%s.normals" % s["name"]] = ns[s["name"]]
+            if rotvel is not None:
+                ext[root + ".rotational_velocity.rotational_velocities"] = rotvel
             GP.run(external=ext, states={root + ".solve_matrix.circulations": gam})
             return GP
 
         Gc = run(True, meshes, normals, al, be)
-        G0 = run(False, meshes_t, normals_t, np.array([ZERO], dtype=object), np.array([ZERO], dtype=object))
+        rotvel_t = None
+        if rotational:
+            # documented rule: the body-frame onset velocities omega x (r - cg) at the physical collocation points are
+            # rotated into the wind frame and scaled by (B^2, B, B)
+            rv = Gc.vals[root + ".rotational_velocity.rotational_velocities"]
+            rotvel_t = np.empty(rv.shape, dtype=object)
+            for r_ in range(rv.shape[0]):
+                w3 = matvec(T, [rv[r_, k] for k in range(3)])
+                rotvel_t[r_, 0], rotvel_t[r_, 1], rotvel_t[r_, 2] = w3[0] * B * B, w3[1] * B, w3[2] * B
+        G0 = run(False, meshes_t, normals_t, np.array([ZERO], dtype=object), np.array([ZERO], dtype=object), rotvel=rotvel_t)
         Gc.encode(rep)
         unexpected = [k for k in list(Gc.guesses) + list(G0.guesses) if not k.endswith("normals")]
         if unexpected:
@@ -267,8 +282,16 @@ def group_level(rep, tier, timeout):
                     obs.append(oblig.Ob("%s_sec_forces%s" % (n, list(idx + (k,))), lhs=Fc[idx + (k,)], rhs=back[k], assume=adm,
                                         meta={"family": "compressible sectional forces are the transformed-problem forces scaled by 1/B^4, 1/B^3 and rotated back", "kind": "F", "surf": n, "idx": list(idx + (k,))}))
 
-        def rp(ob, env, ss=ss):
-            return replay_group(ss)
+        # mesh-node forces published by the compressible states are those of its own *physical* sectional forces
+        mp = SymComp(A + "mesh_point_forces", "MeshPointForces", surfaces=ss)
+        want = mp.sym1({s["name"] + "_sec_forces": Gc.get(root + ".%s_sec_forces" % s["name"]) for s in ss})
+        for s in ss:
+            n = s["name"]
+            obs += idents("%s_mesh_point_forces" % n, Gc.get(root + ".%s_mesh_point_forces" % n), want[n + "_mesh_point_forces"], assume=adm,
+                          meta={"family": "mesh-node forces of the compressible states come from the physical (back-transformed) sectional forces", "kind": "mpf"})
+
+        def rp(ob, env, ss=ss, rotational=rotational):
+            return replay_group(ss, rotational=rotational)
 
         run_obligations(rep, "real CompressibleVLMStates vs VLMStates on the transformed problem [%s]" % cn, obs, timeout, levels=(1, 2), replay=rp,
                         family=lambda ob: "CompressibleVLMStates: " + ob.meta["family"], fixed={"Mach_number[0]": 0.5})
@@ -336,7 +359,7 @@ def normals_lemma(rep, timeout):
                     fixed={"M": 0.5})
 
 
-def replay_group(ss):
+def replay_group(ss, rotational=False):
     """both real models on floats, with sideslip: AeroPoint(compressible=True) against the explicit recipe of the property
     (rotate, stretch, incompressible AeroPoint at alpha = beta = 0, scale, rotate back)"""
     from props import groups
@@ -351,8 +374,29 @@ def replay_group(ss):
         m[:, :, 0] += 0.3 * np.abs(m[:, :, 1]) + 3.0 * k  # sweep, and the surfaces apart
         m[:, :, 2] += 0.1 * np.abs(m[:, :, 1]) + 0.5 * k
         meshes[s["name"]] = m
+    bad = []
+    if rotational:
+        # with rotation rates the witness is the Mach-0 / zero-sideslip identity: compressible == incompressible
+        vr = dict(vals, Mach_number=0.0, beta=0.0, alpha=8.0, omega=np.array([40.0, 15.0, 10.0]) * np.pi / 180.0, cg=np.array([0.5, 0.0, 0.1]))
+        p1 = groups.aeropoint_problem(ss, compressible=True, rotational=True, meshes=meshes, vals=vr)
+        p2 = groups.aeropoint_problem(ss, compressible=False, rotational=True, meshes=meshes, vals=vr)
+        p1.run_model()
+        p2.run_model()
+        for s in ss:
+            n = s["name"]
+            F1 = np.asarray(p1.get_val("aero_point_0.aero_states.%s_sec_forces" % n), dtype=float)
+            F2 = np.asarray(p2.get_val("aero_point_0.aero_states.%s_sec_forces" % n), dtype=float)
+            err = np.abs(F1 - F2).max() / max(1e-30, np.abs(F2).max())
+            if err > 1e-8:
+                bad.append("%s: at Mach 0, zero sideslip and omega != 0 the compressible forces differ from the incompressible ones by %.3g (relative)" % (n, err))
     pc = groups.aeropoint_problem(ss, compressible=True, meshes=meshes, vals=vals)
     pc.run_model()
+    for s in ss:  # mesh-node forces carry the resultant of the physical sectional forces
+        n = s["name"]
+        Fs = np.asarray(pc.get_val("aero_point_0.aero_states.%s_sec_forces" % n), dtype=float).sum(axis=(0, 1))
+        Fm = np.asarray(pc.get_val("aero_point_0.aero_states.%s_mesh_point_forces" % n), dtype=float).sum(axis=(0, 1))
+        if np.abs(Fs - Fm).max() > 1e-8 * max(1.0, np.abs(Fs).max()):
+            bad.append("%s: mesh-node forces sum to %s, sectional forces to %s" % (n, np.round(Fm, 4), np.round(Fs, 4)))
     a, b = np.radians(al), np.radians(be)
     ca, sa, cb, sb = np.cos(a), np.sin(a), np.cos(b), np.sin(b)
     T = np.array([[cb * ca, -sb, cb * sa], [sb * ca, cb, sb * sa], [-sa, 0.0, ca]])
@@ -360,7 +404,6 @@ def replay_group(ss):
     mt = {n: (m @ T.T) * np.array([1.0, Bn, Bn]) for n, m in meshes.items()}
     p0 = groups.aeropoint_problem(ss, compressible=False, meshes=mt, vals=dict(vals, alpha=0.0, beta=0.0))
     p0.run_model()
-    bad = []
     for s in ss:
         n = s["name"]
         Fc = np.asarray(pc.get_val("aero_point_0.aero_states.%s_sec_forces" % n), dtype=float)
